@@ -570,7 +570,40 @@ func validateCheckSum(tgLenSerialized, tgSerialized, checkBuf []byte) error {
 	return nil
 }
 
+// ParseTGData decodes a serialized transaction group. A byte string that is not a serialized
+// transaction group (a length field pointing outside the buffer) yields no write transaction sets.
 func ParseTGData(tgSerialized []byte, rootPath string) (tgID int64, wtSets []wal.WTSet) {
+	tgID, wtSets, err := parseTGData(tgSerialized, rootPath)
+	if err != nil {
+		log.Error(fmt.Sprintf("failed to parse TG data: %v", err))
+		return 0, nil
+	}
+	return tgID, wtSets
+}
+
+// dsvByteLength returns the byte length of the data shape vector at the head of buf,
+// or false if its length fields point outside buf.
+func dsvByteLength(buf []byte) (int, bool) {
+	if len(buf) < 1 {
+		return 0, false
+	}
+	dsLen := int(buf[0])
+	cursor := 1
+	for i := 0; i < dsLen; i++ {
+		if cursor >= len(buf) {
+			return 0, false
+		}
+		// name length(1byte), name, type(1byte)
+		next := cursor + 1 + int(buf[cursor]) + 1
+		if next > len(buf) {
+			return 0, false
+		}
+		cursor = next
+	}
+	return cursor, true
+}
+
+func parseTGData(tgSerialized []byte, rootPath string) (tgID int64, wtSets []wal.WTSet, err error) {
 	// see /docs/design/durable_writes_design.txt for the details of the transaction group format
 	const (
 		tgIDLenBytes      = 8
@@ -583,26 +616,62 @@ func ParseTGData(tgSerialized []byte, rootPath string) (tgID int64, wtSets []wal
 		offsetLenBytes = 8
 		indexLenBytes  = 8
 	)
+	total := len(tgSerialized)
+	cursor := 0
+	// available reports whether n more bytes can be read at the cursor
+	available := func(n int) bool { return n >= 0 && n <= total-cursor }
+	outOfRange := func(field string, i int) error {
+		return fmt.Errorf("TG data is shorter than its %s says (write transaction %d, offset %d, size %d)",
+			field, i, cursor, total)
+	}
+
+	if !available(tgIDLenBytes + wtCountLenBytes) {
+		return 0, nil, outOfRange("header", 0)
+	}
 	tgID = io.ToInt64(tgSerialized[0:tgIDLenBytes])
 	WTCount := io.ToInt64(tgSerialized[tgIDLenBytes : tgIDLenBytes+wtCountLenBytes])
-
-	cursor := tgIDLenBytes + wtCountLenBytes
+	cursor = tgIDLenBytes + wtCountLenBytes
+	// every write transaction takes at least one byte
+	if WTCount < 0 || WTCount > int64(total) {
+		return 0, nil, outOfRange("write transaction count", 0)
+	}
 	wtSets = make([]wal.WTSet, WTCount)
 
 	for i := 0; i < int(WTCount); i++ {
+		if !available(recordLenLenBytes) {
+			return 0, nil, outOfRange("write transaction count", i)
+		}
 		RecordType := io.ToInt8(tgSerialized[cursor : cursor+recordLenLenBytes])
 		cursor += recordLenLenBytes
+		if !available(fpLenLenBytes) {
+			return 0, nil, outOfRange("write transaction count", i)
+		}
 		FPLen := int(io.ToInt16(tgSerialized[cursor : cursor+fpLenLenBytes]))
 		cursor += fpLenLenBytes
+		if !available(FPLen) {
+			return 0, nil, outOfRange("file path length", i)
+		}
 		WALKeyPath := bytes.NewBuffer(tgSerialized[cursor : cursor+FPLen]).String()
 		cursor += FPLen
+		if !available(dataLenLenBytes) {
+			return 0, nil, outOfRange("file path length", i)
+		}
 		dataLen := int(io.ToInt32(tgSerialized[cursor : cursor+dataLenLenBytes]))
 		cursor += dataLenLenBytes
+		if !available(varRecLenLenBytes) {
+			return 0, nil, outOfRange("file path length", i)
+		}
 		varRecLen := int(io.ToInt32(tgSerialized[cursor : cursor+varRecLenLenBytes]))
 		cursor += varRecLenLenBytes
 		fullPath := walKeyToFullPath(rootPath, WALKeyPath)
+		if dataLen < 0 || !available(offsetLenBytes+indexLenBytes+dataLen) {
+			return 0, nil, outOfRange("data length", i)
+		}
 		data := tgSerialized[cursor : cursor+offsetLenBytes+indexLenBytes+dataLen]
 		cursor += offsetLenBytes + indexLenBytes + dataLen
+		if _, ok := dsvByteLength(tgSerialized[cursor:]); !ok {
+			return 0, nil, outOfRange("data shapes", i)
+		}
 		dataShapes, l := io.DSVFromBytes(tgSerialized[cursor:])
 		cursor += l
 
@@ -616,7 +685,7 @@ func ParseTGData(tgSerialized []byte, rootPath string) (tgID int64, wtSets []wal
 		)
 	}
 
-	return tgID, wtSets
+	return tgID, wtSets, nil
 }
 
 func (wf *WALFileType) IsOpen() bool {
